@@ -560,7 +560,7 @@ func (t *tables) optKey(k *phase0.BLSPubKey) string {
 
 func durN(d int64) string {
 	if d < 0 {
-		return N(0) // outside the modelled domain (int64 overflow of ms * 10^6)
+		return N(0) // cannot be configured any more (grace values that overflow are refused)
 	}
 	return N(uint64(d))
 }
